@@ -449,6 +449,14 @@ def check_history(case, rec):
                         err = float(np.nanmax(np.abs(np.asarray(f) - np.asarray(f2))))
                         require(err <= 1e-8 * scale, f"{where}: {mt} call on the same coordinate arrays differs from a freshly built Krige+CondSRF by {err:.3g}",
                                 dict(otags, kind="stale"))
+                        if mt == "structured" and np.size(f2) > 2:
+                            # keyword arguments are handed on to the kriging routine: the grid kriged in chunks is the same field
+                            csz = 2 + (np.size(f2) % 3)
+                            fc = getattr(gs.CondSRF(mk_krige(build_model(spec), cfg, cond_pos.copy(), cond_val.copy()), mode_no=mode_no), mt)(arg, seed=seed, chunk_size=csz)
+                            errc = float(np.nanmax(np.abs(np.asarray(fc) - np.asarray(f2))))
+                            rec.label("structured_chunked")
+                            require(errc <= 1e-8 * scale, f"{where}: structured grid kriged in chunks of {csz} differs from the unchunked conditioned field by {errc:.3g}",
+                                    dict(otags, kind="chunk_dependence"))
                     pos_set = True
                     cur_pos = P.copy()
                     caller_pos = cur_pos.copy()
